@@ -19,7 +19,8 @@ Independent of the Lean driver, the property statement itself is evaluated on th
 (`Oracle`): a job object causes at most one create request; failure number n of a run of consecutive
 failed status requests is raised iff n >= 5 or it is an HTTP error outside 408/409/421/423/429; after a
 final status was shown no status request is sent and the shown status never changes; results / cancel /
-rerun requests are not sent when the status just read forbids them.
+rerun requests are not sent when the status just read forbids them; the "job failed" error of get_results
+carries the status message of the server answer that said ERROR / CANCELED.
 """
 from __future__ import annotations
 
@@ -242,6 +243,7 @@ class Oracle:
         self.creates = 1 if born_sent else 0
         self.fails = 0
         self.final = None
+        self.failmsg = None      # status_message of the server read that said ERROR / CANCELED
 
 
 def run_history(world: World, ops):
@@ -302,6 +304,8 @@ def run_history(world: World, ops):
             if r[0] == "s":
                 orc.fails = 0
                 tags.add("reset")
+                if r[1].lower() in ("error", "canceled"):
+                    orc.failmsg = f"m{k}"
                 continue
             orc.fails += 1
             n = orc.fails
@@ -327,6 +331,10 @@ def run_history(world: World, ops):
                          ("raised-at-max" if n == MAX_ABSORBED + 1 else "raised-beyond-max"))
             else:
                 tags.add("absorbed")
+        if ":failed:" in res and orc.failmsg is not None and res.rsplit(":", 1)[1] != orc.failmsg:
+            hits.append(("failed-message-lost", k,
+                         f"step {k}: the job failed on the server with status message {orc.failmsg!r} but get_results "
+                         f"reports {res.rsplit(':', 1)[1]!r}"))
         if orc.final is not None:
             if any(c[0] == "S" for c in calls):
                 hits.append(("polls-after-final", k, f"step {k}: status request sent after the job showed {orc.final}"))
